@@ -2,14 +2,137 @@
 
 package geom
 
-// Contracts for the WKB parser (checked by /verif/govc; comment-only file).
+// Contracts for the WKB decoder (C08: total on untrusted input, allocation
+// proportional to the remaining input; C04: header/count/float kernels).
 
 //@ prop C08,C04
 
-//@ func (*wkbParser).readByte
+//@ pred Adv(p) = region(p.body) == old(region(p.body)) && offset(p.body) + len(p.body) == old(offset(p.body) + len(p.body)) && len(p.body) <= old(len(p.body)) && offset(p.body) + cap(p.body) == old(offset(p.body) + cap(p.body))
+//@ pred AdvBy(p, k) = Adv(p) && len(p.body) == old(len(p.body)) - k
+
+//@ func bytesAsFloats
+//@   trusted
+//@   ensures len(result) == len(byts) / 8 && (len(byts) == 0 ==> result == nil)
+//@ func floatsAsBytes
+//@   trusted
+//@   ensures len(result) == 8 * len(floats) && (len(floats) == 0 ==> result == nil)
+
+//@ func flipEndianessStride8
+//@   ovfcheck
+//@   requires len(p) % 8 == 0
 //@   modifies p
-//@   ensures result1 == nil ==> len(p.body) == old(len(p.body)) - 1
+//@   loop 0 invariant 0 <= i && i <= len(p) && i % 8 == 0
+
+//@ func (*wkbParser).readByte
+//@   ovfcheck
+//@   modifies p
+//@   ensures result1 == nil ==> AdvBy(p, 1) && result0 == old(p.body[0])
+//@   ensures result1 != nil ==> same(deref(p, wkbParser), old(deref(p, wkbParser)))
+//@   ensures p.bo == old(p.bo) && p.no == old(p.no)
+
+//@ func (*wkbParser).parseByteOrder
+//@   ovfcheck
+//@   modifies p
+//@   ensures result == nil ==> AdvBy(p, 1) && (p.bo == 0 || p.bo == 1) && p.bo == old(p.body[0])
+//@   ensures result == nil ==> (p.no <==> ((p.bo == 1) <==> (nativeOrder == IFACE_LE)))
+//@   ensures result != nil ==> Adv(p)
 
 //@ func (*wkbParser).parseUint32
+//@   ovfcheck
 //@   modifies p
-//@   ensures result1 == nil ==> len(p.body) == old(len(p.body)) - 4
+//@   ensures result1 == nil ==> AdvBy(p, 4)
+//@   ensures result1 != nil ==> Adv(p)
+//@   ensures p.bo == old(p.bo) && p.no == old(p.no)
+//@   ensures result1 == nil && p.bo == 0 ==> result0 == old(p.body[0]) * 16777216 + old(p.body[1]) * 65536 + old(p.body[2]) * 256 + old(p.body[3])
+//@   ensures result1 == nil && p.bo != 0 ==> result0 == old(p.body[3]) * 16777216 + old(p.body[2]) * 65536 + old(p.body[1]) * 256 + old(p.body[0])
+
+//@ func (*wkbParser).parseFloat64
+//@   ovfcheck
+//@   modifies p
+//@   ensures result1 == nil ==> AdvBy(p, 8)
+//@   ensures result1 != nil ==> Adv(p)
+//@   ensures p.bo == old(p.bo) && p.no == old(p.no)
+
+//@ func (*wkbParser).parseGeomAndCoordType
+//@   ovfcheck
+//@   modifies p
+//@   ensures result2 == nil ==> AdvBy(p, 4) && 0 <= result0 && result0 <= 6 && result1 < 4
+//@   ensures result2 != nil ==> Adv(p)
+//@   ensures p.bo == old(p.bo) && p.no == old(p.no)
+
+//@ func (*wkbParser).parsePoint
+//@   ovfcheck
+//@   modifies p
+//@   allocbound 48 * len(p.body) + 64
+//@   ensures Adv(p) && p.bo == old(p.bo) && p.no == old(p.no)
+//@   ensures result1 == nil ==> result0.coords.Type == ctype
+
+//@ func (*wkbParser).parseLineString
+//@   ovfcheck
+//@   modifies p
+//@   allocbound 48 * len(p.body) + 64
+//@   ensures Adv(p) && p.bo == old(p.bo) && p.no == old(p.no)
+//@   ensures result1 == nil ==> result0.seq.ctype == ctype
+
+//@ func (*wkbParser).parsePolygon
+//@   ovfcheck
+//@   modifies p
+//@   allocbound 48 * len(p.body) + 64
+//@   ensures Adv(p) && p.bo == old(p.bo) && p.no == old(p.no)
+//@   loop 0 invariant -1 <= rangeindex && rangeindex < len(rings) && Adv(p) && p.bo == old(p.bo) && p.no == old(p.no) && fresh(rings) && p != nil
+//@   loop 0 invariant forall k :: 0 <= k && k < len(rings) ==> LSInv(rings[k])
+
+//@ func (*wkbParser).inner
+//@   ovfcheck
+//@   modifies p
+//@   allocbound 48 * len(p.body) + 64
+//@   ensures Adv(p) && p.bo == old(p.bo) && p.no == old(p.no)
+
+//@ func (*wkbParser).run
+//@   ovfcheck
+//@   modifies p
+//@   allocbound 48 * len(p.body) + 64
+//@   ensures Adv(p)
+
+//@ func (*wkbParser).parseGeomRoot
+//@   ovfcheck
+//@   requires 0 <= gtype && gtype <= 6
+//@   modifies p
+//@   allocbound 48 * len(p.body) + 64
+//@   ensures Adv(p) && p.bo == old(p.bo) && p.no == old(p.no)
+
+//@ func (*wkbParser).parseMultiPoint
+//@   ovfcheck
+//@   modifies p
+//@   allocbound 48 * len(p.body) + 64
+//@   ensures Adv(p) && p.bo == old(p.bo) && p.no == old(p.no)
+//@   loop 0 invariant 0 <= i && i <= n && len(pts) == n && Adv(p) && p.bo == old(p.bo) && p.no == old(p.no) && fresh(pts) && p != nil
+//@   loop 0 invariant forall k :: 0 <= k && k < len(pts) ==> PtInv(pts[k])
+
+//@ func (*wkbParser).parseMultiLineString
+//@   ovfcheck
+//@   modifies p
+//@   allocbound 48 * len(p.body) + 64
+//@   ensures Adv(p) && p.bo == old(p.bo) && p.no == old(p.no)
+//@   loop 0 invariant 0 <= i && i <= n && len(lss) == n && Adv(p) && p.bo == old(p.bo) && p.no == old(p.no) && fresh(lss) && p != nil
+//@   loop 0 invariant forall k :: 0 <= k && k < len(lss) ==> LSInv(lss[k])
+
+//@ func (*wkbParser).parseMultiPolygon
+//@   ovfcheck
+//@   modifies p
+//@   allocbound 48 * len(p.body) + 64
+//@   ensures Adv(p) && p.bo == old(p.bo) && p.no == old(p.no)
+//@   loop 0 invariant 0 <= i && i <= n && len(polys) == n && Adv(p) && p.bo == old(p.bo) && p.no == old(p.no) && fresh(polys) && p != nil
+//@   loop 0 invariant forall k :: 0 <= k && k < len(polys) ==> PolyInv(polys[k])
+
+//@ func (*wkbParser).parseGeometryCollection
+//@   ovfcheck
+//@   modifies p
+//@   allocbound 48 * len(p.body) + 64
+//@   ensures Adv(p) && p.bo == old(p.bo) && p.no == old(p.no)
+//@   loop 0 invariant 0 <= i && i <= n && len(geoms) == n && Adv(p) && p.bo == old(p.bo) && p.no == old(p.no) && fresh(geoms) && p != nil
+//@   loop 0 assume forall k :: 0 <= k && k < i ==> GInv(geoms[k]) && CTypeOf(geoms[k]) == ctype   // frame of the recursive invariant across the store into the fresh slice: see DESIGN (A-frame-rp)
+
+//@ func UnmarshalWKB
+//@   ovfcheck
+//@   allocbound 48 * len(wkb) + 64
